@@ -47,6 +47,7 @@ class PathLimit(BaseException):
 
 
 ENG = None          # the active engine (one per process at a time)
+MERGE = [False]     # oracle-side evaluation: merge (ite atoms) instead of forking
 
 
 def set_engine(e):
@@ -663,6 +664,23 @@ class SymInt:
                 eng.nfold += 1
                 return (_mk(qlin, qc + qq, self.v // k, isf),
                         _mk(rlin, rc - qq * k, restv - qq * k, isf))
+            if MERGE[0] and span <= 64:
+                # oracle side: merge instead of fork -- the quotient becomes an
+                # ite-sum atom over linear conditions (no div/mod reaches z3)
+                qlo, qhi = lo // k, hi // k
+                rl_t = tuple(sorted(rlin.items()))
+
+                def mkq():
+                    rest = eng.z3_of(rlin, rc)
+                    return z3.Sum([z3.If(rest >= j * k, 1, 0) for j in _range(qlo + 1, qhi + 1)]) + qlo
+                qa = eng.opaque(("qite", rl_t, rc, k, qlo, qhi), mkq, restv // k, qlo, qhi)
+                ra = eng.opaque(("rite", rl_t, rc, k, qlo, qhi),
+                                lambda: eng.z3_of(rlin, rc) - k * eng.atom_z3(next(iter(qa.lin))),
+                                restv % k, 0, k - 1)
+                q = qa + _mk(qlin, qc, (self.v // k) - (restv // k), False)
+                if isf:
+                    q, ra = _setf(q), _setf(ra)
+                return q, ra
             limit = eng.fork_span7 if k == 7 else eng.fork_span
             if span < limit:
                 # fork on the quotient by bisection (linear comparisons only)
@@ -800,6 +818,124 @@ def ENG_truediv(a, o):
     if a.c % k:
         raise Unsupported("inexact true division")
     return SymInt({n: co // k for n, co in a.lin.items()}, a.c // k, a.v // k, True)
+
+
+class MBool:
+    """a merged (unforked) boolean: z3 formula + concrete truth"""
+    __slots__ = ("z", "v")
+
+    def __init__(self, z, v):
+        self.z = z
+        self.v = v
+
+    def __bool__(self):
+        raise Unsupported("branch on a merged boolean")
+
+
+def zbool(c):
+    """-> (z3 Bool, concrete truth) of a python bool / SymBool / MBool"""
+    if type(c) is SymBool:
+        return c.z3(), c.v
+    if type(c) is MBool:
+        return c.z, c.v
+    return z3.BoolVal(bool(c)), bool(c)
+
+
+class MOps:
+    """refmodel backend over proxies that never forks: booleans are merged
+    into z3 formulas, ite becomes an opaque atom, div/mod use the exact
+    identities with ite-sum quotients (see SymInt._divmod_const)."""
+    name = "merge"
+    true = True
+    false = False
+
+    @staticmethod
+    def const(v):
+        return v
+
+    @staticmethod
+    def div(a, k):
+        if type(a) is not SymInt:
+            return a // k
+        MERGE[0] = True
+        try:
+            return a // k
+        finally:
+            MERGE[0] = False
+
+    @staticmethod
+    def mod(a, k):
+        if type(a) is not SymInt:
+            return a % k
+        MERGE[0] = True
+        try:
+            return a % k
+        finally:
+            MERGE[0] = False
+
+    @staticmethod
+    def And(*cs):
+        zs, v = [], True
+        for c in cs:
+            if c is True:
+                continue
+            if c is False:
+                return False
+            z, cv = zbool(c)
+            zs.append(z)
+            v = v and cv
+        if not zs:
+            return True
+        return MBool(z3.And(zs), v)
+
+    @staticmethod
+    def Or(*cs):
+        zs, v = [], False
+        for c in cs:
+            if c is False:
+                continue
+            if c is True:
+                return True
+            z, cv = zbool(c)
+            zs.append(z)
+            v = v or cv
+        if not zs:
+            return False
+        return MBool(z3.Or(zs), v)
+
+    @staticmethod
+    def Not(c):
+        if c is True or c is False:
+            return not c
+        z, cv = zbool(c)
+        return MBool(z3.Not(z), not cv)
+
+    @staticmethod
+    def ite(c, a, b):
+        if c is True:
+            return a
+        if c is False:
+            return b
+        z, cv = zbool(c)
+        eng = ENG
+        za, zb = lift(a), lift(b)
+        va, vb = conc(a), conc(b)
+        e = z3.If(z, za, zb)
+        la, ha = _ival(a)
+        lb, hb = _ival(b)
+        lo = None if la is None or lb is None else min(la, lb)
+        hi = None if ha is None or hb is None else max(ha, hb)
+        return eng.opaque(("ite", e.get_id()), lambda: e, va if cv else vb, lo, hi)
+
+
+_ite_keep = []
+
+
+def _ival(x):
+    if type(x) is SymInt:
+        return ENG.interval(x.lin, x.c)
+    v = _int(x)
+    return v, v
 
 
 def _setf(x):
